@@ -1,7 +1,7 @@
 /-
-  Model/Tables.lean — REGENERATED from /repo/internal/analysis/{check.go,diagnostic_kind.go} and /repo/internal/cmd by
-  /verif/extract on every run of bin/check (do not edit): builtin signatures, allowed types,
-  diagnostic severities, CLI exit sites.
+  Model/Tables.lean — REGENERATED from the tree under check on every run of bin/check (do not edit): builtin
+  signatures, allowed types and diagnostic severities as the program holds them at run time (/verif/extract/rt),
+  CLI exit sites from the source of internal/cmd (/verif/extract --exits).
 -/
 namespace NS
 
@@ -9,19 +9,19 @@ def allowedTypes : List String := ["monetary", "account", "portion", "asset", "n
 
 /-- (name, context, parameter types, return type) ; context: "statement" | "origin" -/
 def builtinsTable : List (String × String × List String × String) := [
-  ("set_tx_meta", "statement", ["string", "any"], ""),
-  ("set_account_meta", "statement", ["account", "string", "any"], ""),
-  ("meta", "origin", ["account", "string"], "any"),
   ("balance", "origin", ["account", "asset"], "monetary"),
-  ("overdraft", "origin", ["account", "asset"], "monetary")
+  ("meta", "origin", ["account", "string"], "any"),
+  ("overdraft", "origin", ["account", "asset"], "monetary"),
+  ("set_account_meta", "statement", ["account", "string", "any"], ""),
+  ("set_tx_meta", "statement", ["string", "any"], "")
 ]
 
 def builtinDocsTable : List (String × String) := [
-  ("set_tx_meta", "set transaction metadata"),
-  ("set_account_meta", "set account metadata"),
-  ("meta", "fetch account metadata"),
   ("balance", "fetch account balance"),
-  ("overdraft", "get absolute amount of the overdraft of an account. Returns zero if balance is not negative")
+  ("meta", "fetch account metadata"),
+  ("overdraft", "get absolute amount of the overdraft of an account. Returns zero if balance is not negative"),
+  ("set_account_meta", "set account metadata"),
+  ("set_tx_meta", "set transaction metadata")
 ]
 
 /-- (diagnostic kind, severity) ; 1 = error, 2 = warning -/
